@@ -545,7 +545,14 @@ def c08_n2(ctx):
         bound = [sstr(x) for x in ebu.var_defs(nvar)] if nvar else []
         want = r"^Ord::min\(VecDeque::len\(self\.naks\), \(NegativeAcknowledgmentPDU::max_nak_num\(self\.config\.file_size_flag, \(self\.config\.file_size_segment as u32\)\) as usize\)\)$"
         want2 = r"^Ord::min\(\(NegativeAcknowledgmentPDU::max_nak_num\(self\.config\.file_size_flag, \(self\.config\.file_size_segment as u32\)\) as usize\), VecDeque::len\(self\.naks\)\)$"
-        if bound and all(re.match(want, x) or re.match(want2, x) for x in bound):
+        # the same bound with intermediate lets folded in (full inlining), `cmp::min` or `Ord::min`, either order
+        full = re.sub(r"\bcmp::min\(", "Ord::min(", m.group(1))
+        if re.match(want, full) or re.match(want2, full):
+            bound = bound or [full]
+            ok_full = True
+        else:
+            ok_full = False
+        if ok_full or (bound and all(re.match(want, x) or re.match(want2, x) for x in bound)):
             yield ok("C08-N2", "send_naks:requests", where, "drain(..min(len, max_nak_num(config.file_size_flag, config.file_size_segment)))")
         else:
             yield bad("C08-N2", "send_naks:requests", where, "the number of requests per PDU is bounded by %s, not min(queue length, max_nak_num(config.file_size_flag, config.file_size_segment))" % (bound or rt[:160]))
